@@ -28,7 +28,7 @@
 from __future__ import annotations
 
 from dataclasses import dataclass, field
-from ttconv.config import ModuleConfiguration
+from ttconv.config import ModuleConfiguration, parse_bool
 
 @dataclass
 class SRTWriterConfiguration(ModuleConfiguration):
@@ -39,4 +39,4 @@ class SRTWriterConfiguration(ModuleConfiguration):
     return "srt_writer"
 
   # outputs text formatting tags
-  text_formatting: bool = field(default=True, metadata={"decoder": bool})
+  text_formatting: bool = field(default=True, metadata={"decoder": parse_bool})
